@@ -6,14 +6,17 @@ Open Scope N_scope.
    serr: 0 ok, 1 DecodeLn error, 2 MarshalMap error, 3 MarshalText error, 4 panic, 5 not run *)
 Record step := mkS { serr : N; stext : bytes; skv : list kv }.
 
-(* library observations: ParseIP (text -> 16 bytes), IP.String, ParseCIDR (text -> ip, ones, bits),
-   IPNet.String ((ip16, ones) -> text), runes >= 0x80 -> IsPrint *)
+(* library observations: ParseIP (text -> 16 bytes), IP.String (of 16-byte and, for B/H ipv4hint, 4-byte
+   slices), ParseCIDR (text -> ip, ones, bits), IPNet.String ((ip16, ones) -> text), runes >= 0x80 ->
+   IsPrint, base64 Decode (text -> bytes; no entry = error) and Encode (B/H echconfig) *)
 Record tables := mkT {
   t_ipp : list (bytes * bytes);
   t_ips : list (bytes * bytes);
   t_cp : list (bytes * (bytes * N * N));
   t_np : list (bytes * N * bytes);
-  t_runes : list (N * bool) }.
+  t_runes : list (N * bool);
+  t_b64d : list (bytes * bytes);
+  t_b64e : list (bytes * bytes) }.
 
 Inductive case :=
 | CLine (t : N) (v2 : bool) (serial : N) (wf : bool) (line : bytes) (s1 s2 s3 : step) (tb : tables)
@@ -38,7 +41,9 @@ Definition oracles_of (tb : tables) : toracles :=
        (fun s => lookup_b (t_ipp tb) s)
        (fun a => match lookup_b (t_ips tb) a with Some x => x | None => [] end)
        (fun s => lookup_b (t_cp tb) s)
-       (fun a ones => lookup_net (t_np tb) a ones).
+       (fun a ones => lookup_net (t_np tb) a ones)
+       (fun s => lookup_b (t_b64d tb) s)
+       (fun x => match lookup_b (t_b64e tb) x with Some e => e | None => [] end).
 
 Definition kv_eqb (a b : kv) : bool := bytes_eqb (fst a) (fst b) && bytes_eqb (snd a) (snd b).
 Fixpoint list_eqb {A} (eq : A -> A -> bool) (a b : list A) : bool :=
@@ -61,17 +66,20 @@ Fixpoint perm_eqb {A} (eq : A -> A -> bool) (a b : list A) : bool :=
   | x :: a' => match remove1 eq x b with Some b' => perm_eqb eq a' b' | None => false end
   end.
 
-Definition modelled (t : N) : bool := negb ((t =? 66) || (t =? 72)).
+(* all 17 record types (before the B/H extension: all but B and H) *)
+Definition modelled (t : N) : bool := modelled_type t.
 
 (* the model run on one line against one observed step *)
 Definition step_matches (o : toracles) (v2 : bool) (serial : N) (l : bytes) (s : step) : bool :=
   match parse_line o serial l with
   | Err e =>
-    if e =? E_UNMODELLED then true
-    else if e =? E_PANIC then serr s =? 4
+    if e =? E_PANIC then serr s =? 4
     else serr s =? 1
   | Ok r =>
-    (serr s =? 0) && bytes_eqb (marshal o r) (stext s) && list_eqb kv_eqb (convert v2 false r) (skv s)
+    match marshal_r o r with
+    | Ok text => (serr s =? 0) && bytes_eqb text (stext s) && list_eqb kv_eqb (convert v2 false r) (skv s)
+    | Err _ => serr s =? 4              (* ParamList.ToText would panic *)
+    end
   end.
 
 Definition flatten_dump (d : list (bytes * list bytes)) : list kv :=
@@ -89,9 +97,16 @@ Fixpoint all_some {A} (l : list (option A)) : option (list A) :=
 (* the library premises of the theorems (Hip_rt, Hip_nil, Hip_nosep), re-checked on every value
    the harness observed *)
 Definition lib_ok (tb : tables) : bool :=
-  forallb (fun e => match lookup_b (t_ipp tb) (snd e) with Some a => bytes_eqb a (fst e) | None => false end &&
-                    negb (contains 44 (snd e))) (t_ips tb) &&
-  match lookup_b (t_ipp tb) [] with None => true | Some _ => false end.
+  forallb (fun e => match lookup_b (t_ipp tb) (snd e) with Some a => bytes_eqb a (to16 (fst e)) | None => false end &&
+                    negb (contains 44 (snd e)) &&
+                    (* svcb_library: no ; | double quote; a ':' in a 16-byte address outside ::ffff:0:0/96 *)
+                    negb (contains 59 (snd e)) && negb (contains 124 (snd e)) && negb (contains 34 (snd e)) &&
+                    ((length (fst e) =? 4)%nat || is4 (fst e) || contains 58 (snd e))) (t_ips tb) &&
+  match lookup_b (t_ipp tb) [] with None => true | Some _ => false end &&
+  forallb (fun e => (length (snd e) =? 16)%nat && wf_bytesb (snd e)) (t_ipp tb) &&
+  forallb (fun e => wf_bytesb (snd e)) (t_b64d tb) &&
+  forallb (fun e => match lookup_b (t_b64d tb) (snd e) with Some x => bytes_eqb x (fst e) | None => false end &&
+                    negb (contains 59 (snd e)) && negb (contains 34 (snd e))) (t_b64e tb).
 
 (* correspondence: the model computes what the implementation did *)
 Definition model_ok (c : case) : bool :=
@@ -123,7 +138,7 @@ Definition model_ok (c : case) : bool :=
          (length body <=? length out)%nat
        end) &&
       (match compile o (fun _ => rps) v2 serial file with
-       | Err e => if e =? E_UNMODELLED then true else orig_err
+       | Err _ => orig_err
        | Ok kvs => negb orig_err && perm_eqb kv_eqb kvs (flatten_dump orig)
        end)
     end
